@@ -245,6 +245,31 @@ def check_checked(case, ctx):
                 if bytes(buf) != case["payload"] or e1 != s or st2 == "exc" or e2 != s:
                     raise Violation("C10/checksum/encode-touches-callers-buffer", "encode_base58_checksum(bytearray %s): first call "
                                     "%r, second call %r, buffer afterwards %s" % (case["payload"][:12].hex(), e1, e2, bytes(buf).hex()[:80]))
+                # the caller changes its buffer in place (same length) and encodes again; then the stale pair
+                # "new payload + old checksum" is offered to the decoder
+                # (contents this process has not hashed before, so that the mutable object itself is what any memo sees first)
+                buf = bytearray(case["payload"])
+                buf[0] ^= 0x55
+                first_p = bytes(buf)
+                st0, e0 = call(h.encode_base58_checksum, buf)
+                if st0 == "exc" or e0 != b58.encode_check(first_p):
+                    raise Violation("C10/checksum/encode-differs", "encode_base58_checksum(bytearray %s) = %r" % (first_p[:12].hex(), e0))
+                old_chk = b58.sha256d(first_p)[:4]
+                buf[0] ^= 0x01
+                buf[-1] ^= 0x80
+                newp = bytes(buf)
+                st3, e3 = call(h.encode_base58_checksum, buf)
+                if st3 == "exc" or e3 != b58.encode_check(newp):
+                    raise Violation("C10/checksum/stale-after-buffer-edit", "encode_base58_checksum of a bytearray edited in place after an "
+                                    "earlier call gave %r, expected %s" % (e3, b58.encode_check(newp)))
+                if b58.sha256d(newp)[:4] != old_chk:
+                    st4, d4 = call(h.decode_base58_checksum, b58.encode(newp + old_chk))
+                    if st4 == "ok":
+                        raise Violation("C10/checksum/accepted-invalid[stale-checksum]", "decode_base58_checksum accepted the edited payload "
+                                        "with the checksum of the earlier contents: %r" % (d4,))
+                    st5, d5 = call(h.decode_base58_checksum, b58.encode_check(newp))
+                    if st5 == "exc" or d5 != newp:
+                        raise Violation("C10/checksum/refused-valid", "decode_base58_checksum refused the genuine string of the edited payload: %r" % (d5,))
             else:
                 ctx.count("bytearray-payload-refused (not judged)")
 
